@@ -1,3 +1,4 @@
+import Woodpile.Driver.Unwind
 import Woodpile.Driver.Util
 import Woodpile.Driver.Iovec
 import Woodpile.Model.EncWorld
@@ -376,6 +377,8 @@ def step (s : St) (ws : List String) : St × List String :=
     | _, _ => (s, ["bad-op"])
   | _ => stepRest2 s ws
 
-def family : Family := { σ := St, init := St.init, step := step }
+/-- `unwinding <ws>`: no op of this vocabulary is specified to panic (the harness wraps any op); an op the
+model cannot run (`bad-op`) or panics on is refused (decided on the op's own answer, evaluated once). -/
+def family : Family := withUnwindOut { σ := St, init := St.init, step := step } (fun _ _ => true) panicOrBad
 
 end Woodpile.Driver.CodecWFam
